@@ -56,6 +56,7 @@ type Exec struct {
 	assumed    map[string]bool
 	ifaceFacts map[*Term]bool
 	symObjs    map[*Term]*Obj
+	utcLoc     *Obj // the Location object UTC() results point to
 	callees    map[string]bool // contracts of callees this execution relied on (keys of World.Specs)
 	ordinal    map[ssa.Instruction]int
 	globals    map[string]*Obj
